@@ -309,4 +309,4 @@ def _obligations():
 
 
 def obligations():
-    return _obligations() + [labels_obligation("C14"), selectors_obligation("C14"), effects_obligation("C14")]
+    return _obligations() + [labels_obligation("C14"), selectors_obligation("C14"), effects_obligation("C14"), plumbing_obligation("C14")]
